@@ -77,7 +77,7 @@ var families = [...]struct {
 
 func familyOf(ch *check) int {
 	switch {
-	case strings.HasPrefix(ch.line, "pv "), strings.HasPrefix(ch.line, "pr "):
+	case strings.HasPrefix(ch.line, "pv "), strings.HasPrefix(ch.line, "pr "), strings.HasPrefix(ch.line, "pm "):
 		return 1
 	case strings.HasPrefix(ch.line, "r2 "), strings.HasPrefix(ch.line, "r2f "):
 		return 2
@@ -94,7 +94,11 @@ func (c *ctx) modelLine(verifier, root, key string, p Proof, hash string) string
 	if verifier == "legacy" {
 		return "vL " + c.cfgL + " " + root + " " + dashIfEmpty(key) + p.toks(hf)
 	}
-	return "v2 " + c.cfg2 + " " + root + " " + dashIfEmpty(key) + p.toks(hf)
+	op := "v2 "
+	if probeValueWalks {
+		op = "v2w "
+	}
+	return op + c.cfg2 + " " + root + " " + dashIfEmpty(key) + p.toks(hf)
 }
 
 type verifyReplay struct {
@@ -112,6 +116,9 @@ type verifyReplay struct {
 	Honest   bool      `json:"honest"`
 	KeyPlus  bool      `json:"key_plus_2_251,omitempty"`
 	Trie     *TrieSpec `json:"trie,omitempty"`
+	// shared-set section: the keys proven, in this order, into the ONE set `Proof` (on top of `PreSet`)
+	Proven []string `json:"keys_proven_into_one_set,omitempty"`
+	PreSet Proof    `json:"set_content_before,omitempty"`
 }
 
 // judge evaluates the answers for one check.
@@ -226,7 +233,8 @@ func main() {
 		"trie2_trusts_cached_hash": c.cfg2[0] == '1', "trie2_value_node_ends_walk_early": c.cfg2[1] == '1',
 		"trie2_zero_root_means_absent": c.cfg2[2] == '1', "legacy_zero_root_means_absent": c.cfgL[2] == '1',
 		"trie2_walks_the_collapsed_copy": c.cfg2[3] == '1', "trie2_refuses_keys_above_2_251": c.cfg2[4] == '1',
-		"legacy_refuses_keys_above_2_251": c.cfgL[4] == '1'})
+		"legacy_refuses_keys_above_2_251": c.cfgL[4] == '1',
+		"trie2_follows_a_value_child_like_a_hash_child": probeValueWalks})
 
 	// The repaired verifiers (commits aab3e5b, dbf9f09, 616d4a4) are THE model now: `Cfg.strict`. The
 	// probes still select the variant for the driver (so that a regressed tree is compared with the
@@ -271,7 +279,7 @@ func main() {
 		go c.runBatches(ch, &wg)
 	}
 	var sections sync.WaitGroup
-	sections.Add(7)
+	sections.Add(8)
 	t0 := time.Now()
 	timing := map[string]float64{}
 	var tmu sync.Mutex
@@ -288,6 +296,7 @@ func main() {
 	go timed("range_small_section_done_s", func() { c.rangeSmallSection(r.Fork(5), ch, c.probeRangeCfg()) })
 	go timed("rpc_race_section_done_s", func() { c.rpcRaceSection(r.Fork(7)) })
 	go timed("special_section_done_s", func() { c.specialSection() })
+	go timed("shared_section_done_s", func() { c.sharedSection(r.Fork(8), ch) })
 	go timed("weird_section_done_s", func() { c.weirdSection(r.Fork(4), ch) })
 	sections.Wait()
 	close(ch)
@@ -365,6 +374,20 @@ func (c *ctx) replay(path string) {
 	if err := json.Unmarshal(raw, &vr); err != nil {
 		c.res.Fatalf("replay: %v", err)
 		return
+	}
+	if vr.Section == "shared-set" && vr.Trie != nil && len(vr.Proven) > 0 {
+		// the keys are proven again, into one set, by the tree under test
+		bt, err := buildTrie(vr.Trie)
+		if err != nil {
+			c.res.Fatalf("replay: %v", err)
+			return
+		}
+		p, err := bt.proveMany(vr.PreSet.clone(), vr.Proven)
+		if err != nil {
+			c.res.Fatalf("replay: Prove: %v", err)
+			return
+		}
+		vr.Proof, vr.Root = p, fhex(&bt.root)
 	}
 	drv, err := lib.StartDriver(c.f.Driver)
 	if err != nil {
@@ -446,7 +469,10 @@ func probeCfg(res *lib.Result) (cfg2, cfgL string) {
 		inner = n.C.F
 	}
 	q[0] = n
-	early := realVerify("trie2", hf, &bt.root, key, q) == "ok "+inner
+	ans2 := realVerify("trie2", hf, &bt.root, key, q)
+	early := ans2 == "ok "+inner
+	// the variant that follows a value child like a hash child (proposed repair) returns the key's value here
+	probeValueWalks = ans2 == "ok 2"
 	b := func(x bool) string {
 		if x {
 			return "1"
@@ -500,5 +526,9 @@ func probeCfg(res *lib.Result) (cfg2, cfgL string) {
 }
 
 func ptrFelt(f felt.Felt) *felt.Felt { return &f }
+
+// probeValueWalks: trie2.VerifyProof follows a child of Go type ValueNode like a hash child while key bits are
+// left (set by probeCfg); the model of that variant is the driver's `v2w` (`verify2W`)
+var probeValueWalks bool
 
 var _ = felt.Zero
